@@ -1,0 +1,20 @@
+//go:build verif
+
+// Contracts for the gocv verifier (comment-only file; see /verif/DESIGN.md §4).
+package pool
+
+// PackTCPBuffer: on success the returned buffer is the two-byte big-endian length
+// of the packed message followed by exactly the packed message (C16).
+//@ func PackTCPBuffer [C16]
+//@   log PackTCPBuffer
+//@   requires m != nil
+//@   ensures (result_1 == nil) == (result_0 != nil)
+//@   ensures calls(PackBuffer) == 1
+//@   ensures ret(PackBuffer, 0, 1) != nil ==> result_1 != nil
+//@   ensures ret(PackBuffer, 0, 1) == nil && len(ret(PackBuffer, 0, 0)) > 65535 ==> result_1 != nil
+//@   ensures result_1 == nil ==> fresh(result_0) && fresh((*result_0).ref) && len(*result_0) >= 14 && len(*result_0) <= 65537
+//@   ensures result_1 == nil ==> len(*result_0) == 2 + len(ret(PackBuffer, 0, 0)) && len(ret(PackBuffer, 0, 0)) <= 65535
+//@   ensures result_1 == nil ==> (*result_0)[0] * 256 + (*result_0)[1] == len(ret(PackBuffer, 0, 0))
+//@   ensures result_1 == nil ==> forall i int :: 0 <= i && i < len(ret(PackBuffer, 0, 0)) ==> (*result_0)[2 + i] == aftercall(PackBuffer, 0, ret(PackBuffer, 0, 0)[i])
+//@   ensures result_1 == nil ==> calls(GetBuf) == 2 && calls(ReleaseBuf) == 1 && arg(ReleaseBuf, 0, 0) == ret(GetBuf, 0) && result_0 == ret(GetBuf, 1)
+//@   ensures result_1 != nil ==> calls(GetBuf) == 1 && calls(ReleaseBuf) == 1 && arg(ReleaseBuf, 0, 0) == ret(GetBuf, 0)
